@@ -255,4 +255,37 @@ ResultOKm(db, q, res, running) ==
 ResultOK(db, q, res) == ResultOKm(db, q, res, FALSE)
 \* wrong, and exactly as the running rounded mean predicts (groups, counts and everything else right)
 KnownRunningAvg(db, q, res) == ~ResultOK(db, q, res) /\ HasAgg(q) /\ ResultOKm(db, q, res, TRUE)
+-----------------------------------------------------------------------------
+(* Tables in which every row is a group of its own (C07, many groups).  For  *)
+(* a one-table query without WHERE / window whose grouping values are        *)
+(* pairwise distinct, ResultOK says: one result row per table row, and the   *)
+(* row of a group is the aggregate row of that single member.  The expected  *)
+(* rows are then pairwise distinct themselves (the grouping column is in the *)
+(* select list), so "same bag" is "same set and same length" - which TLC     *)
+(* decides on 10^5 rows, where ResultOK's nested scans (Members per result   *)
+(* row) do not finish.  DistinctGroupsAgree states that the two predicates   *)
+(* agree; the check evaluates it on small tables on every run, so that the   *)
+(* shortcut cannot drift from the definition.                                *)
+SingletonRow(f, r, q) ==
+  [i \in 1..Len(q.list) |->
+     LET it == q.list[i] IN
+     CASE it.k = "col" -> r[Idx(f, it.ref)]
+       [] it.k = "count" -> IntV(1)
+       [] it.k = "countcol" -> IntV(IF r[Idx(f, it.ref)].t = "n" THEN 0 ELSE 1)
+       [] it.k = "avg" -> r[Idx(f, it.ref)]          \* the mean of one integer
+       [] OTHER -> Null]
+DistinctGroupsShape(db, q) ==
+  /\ Len(q.from) = 1 /\ q.where = <<>> /\ q.limit < 0 /\ q.offset < 0 /\ q.group # <<>>
+  /\ ~MustFail(db, q) /\ ~GroupBad(q)
+  /\ \A i \in 1..Len(q.list) : q.list[i].k \in {"col", "count", "countcol", "avg"}
+  /\ LET rel == FromRel(db, q) IN
+       /\ Cardinality(Groups(rel.f, rel.rows, q)) = Len(rel.rows)
+       /\ \A i \in 1..Len(q.list) : q.list[i].k = "avg" =>
+             \A r \in 1..Len(rel.rows) : rel.rows[r][Idx(rel.f, q.list[i].ref)].t = "i"
+DistinctGroupsOK(db, q, res) ==
+  LET rel == FromRel(db, q) IN
+  /\ ~res.err
+  /\ Len(res.rows) = Len(rel.rows)
+  /\ {res.rows[i] : i \in 1..Len(res.rows)} = {SingletonRow(rel.f, rel.rows[i], q) : i \in 1..Len(rel.rows)}
+DistinctGroupsAgree(db, q, res) == DistinctGroupsShape(db, q) => (DistinctGroupsOK(db, q, res) <=> ResultOK(db, q, res))
 =============================================================================
